@@ -135,6 +135,8 @@ def check(run, M, tier):
                     ok = isinstance(node, ast.Assign) and isinstance(node.value, ast.Name) and node.value.id == attr
                     run.check(ok, "S5", "%s.__init__ self.%s" % (cls.name, attr), f.loc(node), "bound to the caller's array",
                               "`%s` does not store the caller's array itself, so the solution is not written into the array the caller passed" % unparse(node), stmt=node)
+                elif isinstance(node, ast.AugAssign):
+                    continue  # in-place update of the array
                 else:
                     run.bad("S5", "%s.%s self.%s" % (cls.name, name, attr), f.loc(node),
                             "`%s` rebinds self.%s; the caller's array stops receiving the iterate" % (unparse(node), attr), stmt=node)
